@@ -5,7 +5,10 @@ from __future__ import annotations
 
 VARS = "xyzabct"
 ALPHABET_OPS = ["+", "-", "*", "/", "^", "!", "=", "(", ")", "[", "]", "–"]
-UNSUPPORTED = ["#", "$", "&", "?", "_", ",", ";", "@", "é", "{", "|", "~", "%", ":", "'"]
+UNSUPPORTED = ["#", "$", "&", "?", "_", ",", ";", "@", "é", "{", "|", "~", "%", ":", "'",
+               # characters that str.isspace()/isdigit()/isalpha() accept but the alphabet does not
+               "\xa0", "\x0c", "\x0b", "\x85", "\u2003", "\u2028", "\x1c",
+               "²", "٣", "５", "ｘ", "Ａ", "π", "−", "×", "÷", "—", "“"]
 
 
 def number(rng, cfg) -> str:
